@@ -2,7 +2,7 @@
 import ast
 import re
 
-from ..core import AnalysisError, src, qualname_of
+from ..core import AnalysisError, src, qualname_of, closure_walk
 from ..pysym import SymExec, show, subterms, str_parts
 from ..rules_pyx import N, C, A
 from .. import codec
@@ -34,7 +34,7 @@ SI = 'depccg/semantics/ccg2lambda/semantic_index.py'
 def set_calls(fn):
     """-> {receiver text: {attribute: value src}} of <x>.set('attr', v) calls"""
     out = {}
-    for n in ast.walk(fn):
+    for n in closure_walk(fn):
         if isinstance(n, ast.Call) and isinstance(n.func, ast.Attribute) and n.func.attr == 'set' and len(n.args) == 2:
             k = n.args[0]
             key = k.value if isinstance(k, ast.Constant) else '*' + src(k)
@@ -45,7 +45,7 @@ def set_calls(fn):
 def elements(fn):
     """-> {var: tag} for x = etree.Element('tag') / etree.SubElement(parent, 'tag')"""
     out = {}
-    for n in ast.walk(fn):
+    for n in closure_walk(fn):
         if isinstance(n, ast.Assign) and isinstance(n.value, ast.Call) and src(n.value.func) in ('etree.Element', 'etree.SubElement'):
             tag = n.value.args[-1]
             if isinstance(tag, ast.Constant) and isinstance(n.targets[0], ast.Name):
@@ -56,7 +56,7 @@ def elements(fn):
 def attrib_reads(fn, var_pred=None):
     """attribute names read through x.attrib['k'] / attrib['k'] / x.get('k')"""
     out = set()
-    for n in ast.walk(fn):
+    for n in closure_walk(fn):
         if isinstance(n, ast.Subscript) and isinstance(n.slice, ast.Constant) and isinstance(n.slice.value, str):
             v = src(n.value)
             if v == 'attrib' or v.endswith('.attrib') or v == 'token_attribs':
@@ -103,8 +103,8 @@ def r_candc(repo, rep, R='R15.1'):
     rep.check(star_leaf and all(need <= m for m in made) and need == leaf_keys, R, w, 'candc:token-keys',
               'the leaf element carries every token field; the reader requires %s, which Token.of_word / of_piped always create' % sorted(need),
               'reader requires token fields %s; tokens created by of_word/of_piped have %s; leaf writes all fields: %s' % (sorted(need), [sorted(m) for m in made], star_leaf))
-    rtxt = src(pt)
-    rep.check('for child in node.children' in rtxt, R, w, 'candc:children', 'children are written in order under their rule element', 'children are not written in order')
+    child_loops = [n for n in closure_walk(pt) if isinstance(n, (ast.For, ast.comprehension)) and isinstance(n.iter, ast.Attribute) and n.iter.attr == 'children']
+    rep.check(bool(child_loops), R, w, 'candc:children', 'children are written in order under their rule element', 'children are not written in order')
     # token values are written and read back verbatim
     wrec = pm.get('_process_tree.rec')
     token_keys = need | {'word'}
